@@ -365,7 +365,7 @@ fn parse_cfg(p: &Path) -> MResult<Cfg> {
     layout.bm().quick_tap_hold_timeout = icfg.options.concurrent_tap_hold;
     layout.bm().oneshot.pause_input_processing_delay = icfg.options.rapid_event_delay;
     if let Some(s) = icfg.start_action {
-        layout.bm().action_queue.push_front(Some(((1, 0), 0, s)));
+        layout.bm().action_queue.push_front(Some(((1, 0), 0, s, None)));
     }
     let mut fake_keys: HashMap<String, usize> = s
         .virtual_keys
